@@ -89,7 +89,7 @@ def run_shard_child(pid, tier, seed, shard, scratch, timeout):
         p = subprocess.run(
             cmd,
             cwd=ROOT,
-            env=child_env(),
+            env=dict(child_env(), **(shard.get("env") or {})),  # a shard may name an environment of its own (locale ...)
             timeout=timeout,
             stdout=subprocess.PIPE,
             stderr=subprocess.PIPE,
@@ -160,6 +160,7 @@ def write_replay(pid, tier, seed, key, failure):
                 "seed": seed,
                 "shard": failure.get("shard"),
                 "pyopt": bool(failure.get("pyopt")),
+                "env": failure.get("env"),
                 "text": failure.get("text"),
                 "count": failure.get("count"),
                 "witness": failure.get("witness"),
@@ -299,6 +300,9 @@ def replay(pid, path):
     from vmon.ctx import Ctx
 
     rec = json.load(open(path))
+    if rec.get("env") and any(os.environ.get(k) != v for k, v in rec["env"].items()):
+        # observed in an interpreter started in another environment (locale ...): replay it the same way
+        return subprocess.call([sys.executable, "-B"] + (PYOPT_FLAGS if rec.get("pyopt") else []) + ["-m", "vmon.cli", pid, "--replay", path], cwd=ROOT, env=dict(child_env(), **rec["env"]))
     if rec.get("pyopt") and __debug__:
         # observed in an interpreter started with -O: replay it the same way
         return subprocess.call([sys.executable, "-B"] + PYOPT_FLAGS + ["-m", "vmon.cli", pid, "--replay", path], cwd=ROOT, env=child_env())
